@@ -6,7 +6,7 @@ CONFIGS = {
     'quick': [('aliases', ('H_A', 'M_A', 'T_A', 'O_A', 2, 3), 4000)],
     'thorough': [('aliases', ('H_A', 'M_A', 'T_A', 'O_A', 3, 3), 60000)],
 }
-OWNED = {'error_type', 'accepted', 'no_alias_refs', 'meaning_mod_sub', 'header_carried', 'macros_kept'}
+OWNED = {'accepted', 'no_alias_refs', 'meaning_mod_sub', 'header_carried', 'macros_kept', 'refs_follow_decls'}
 
 
 def owned(site):
